@@ -427,10 +427,14 @@ fn gen_roll_case(r: &mut Rng, decodable: bool) -> RollCase {
     // bucket, shows only there); they get long histories that step about one bucket at a time
     let many = r.chance(1, 4);
     let n = if many { *r.pick(&[8u32, 15, 16, 17, 20, 33, 64]) } else { r.range(1, 5) as u32 };
-    let d = *r.pick(&[1u64, 2, 3, 7, 10, 1000, 1_000_000_000]);
+    // durations whose length in seconds is no binary fraction (100 ms, 10 ms, 300 ms, 1 us, 7 ns ..) are the ones where
+    // an alignment computed in floating point goes wrong
+    let d = *r.pick(&[1u64, 2, 3, 7, 10, 1000, 1_000_000_000, 100_000_000, 10_000_000, 300_000_000]);
     let w = n as u64 * d;
     let start = *r.pick(&[0, 1, d - 1, d, w - 1, w, w + 1, 5 * w + 3]);
-    let steps = [0, 0, 1, d - 1, d, d + 1, w - 1, w, w + 1, 3 * w, d / 2, 2 * d];
+    // `kd`: a whole number of durations that still leaves the reference bucket alive (2 <= k < n)
+    let kd = if n > 2 { r.range(2, n as usize - 1) as u64 * d } else { 2 * d };
+    let steps = [0, 0, 1, d - 1, d, d + 1, w - 1, w, w + 1, 3 * w, d / 2, 2 * d, kd, w - d, w - d / 2 - 1];
     let table = value_table();
     // the two last ones need more than 24 bits (a narrower `_sum` accumulator shows)
     let mixed: [f64; 16] = [
@@ -456,7 +460,7 @@ fn gen_roll_case(r: &mut Rng, decodable: bool) -> RollCase {
     // biased towards small steps so that several buckets are live at once
     for _ in 0..nev {
         let step = if many && !r.chance(1, 12) {
-            *r.pick(&[0, d, d, d, d + 1, d / 2, 2 * d])
+            *r.pick(&[0, d, d, d, d + 1, d / 2, 2 * d, kd, 3 * d])
         } else if r.chance(1, 2) {
             *r.pick(&[0, 1, d - 1, d, d + 1, d / 2])
         } else {
@@ -555,6 +559,23 @@ fn run_roll_case(out: &mut Out, c: &RollCase) {
                         "number of samples in the snapshot is outside [#(ts > now-W+d), #(ts > now-W)]",
                         &format!("n={} d={} now={} adds={:?} retained={} lower={} upper={}", c.n, c.d, now, added, retained, lower.len(), upper.len()),
                     );
+                }
+                // when every sample so far was recorded a whole number of bucket durations after the first one, every
+                // bucket begins exactly at the timestamp of its samples ("buckets are kept in alignment based on the instant
+                // of the first added bucket and the bucket_duration"; a chain that died out restarts at a sample's own
+                // timestamp), so the window is exact: retained = the samples with ts > now - W
+                let aligned = added.iter().all(|(_, ts)| (ts - added[0].1) % c.d == 0);
+                if aligned && !added.is_empty() {
+                    out.count("R.snapshot with bucket-aligned timestamps (exact window)");
+                    if retained != upper.len() {
+                        out.oracle_fail(
+                            "snapshot lost a sample that is inside the window (ts > now - W)",
+                            &format!(
+                                "all timestamps are whole bucket durations apart: n={} d={} now={} adds={:?} retained={} but {} samples have ts > now - W",
+                                c.n, c.d, now, added, retained, upper.len()
+                            ),
+                        );
+                    }
                 }
                 if c.decodable {
                     // decode the sketch rank by rank
@@ -1969,6 +1990,276 @@ fn bucket_count_probe(count: u32) {
     println!("probe-ok big_count line present: {}", text.contains("big_count 1"));
 }
 
+
+// ---------------------------------------------------------------------------------------------
+// stream C: the configured quantiles (`metrics_util::{Quantile, parse_quantiles}`, `PrometheusBuilder::set_quantiles`)
+// and the quantile lines a rendered summary shows for them
+
+/// the oracle's own reading of "All values are clamped between 0.0 and 1.0" (independent of the model): a configured
+/// value that is no number, or below 0, is the minimum; above 1 the maximum
+fn own_clamp(q: f64) -> f64 {
+    if q.is_nan() || q < 0.0 {
+        0.0
+    } else if q > 1.0 {
+        1.0
+    } else {
+        q
+    }
+}
+
+/// quantile values the model can name (units of 1/1024) besides NaN and the infinities
+fn quantile_pool() -> Vec<f64> {
+    let mut v = vec![
+        f64::NAN,
+        -f64::NAN,
+        f64::INFINITY,
+        f64::NEG_INFINITY,
+        -1.0,
+        -0.25,
+        dy(-1),
+        0.0,
+        1.0,
+        dy(1025),
+        1.25,
+        1.5,
+        2.0,
+        1000.0,
+        -1000.0,
+        0.5,
+        0.25,
+        0.75,
+        0.125,
+        0.875,
+        dy(1),
+        dy(1023),
+    ];
+    for k in [3i64, 17, 100, 333, 511, 513, 900, 1000, 1021] {
+        v.push(dy(k));
+    }
+    v
+}
+
+fn label_class(l: &str) -> &'static str {
+    if l == "min" {
+        "min"
+    } else if l == "max" {
+        "max"
+    } else if l.starts_with('p') {
+        "p"
+    } else {
+        "other"
+    }
+}
+
+/// corpus: `Quantile::new` / `parse_quantiles` called directly on every special value
+fn run_quantile_new_corpus(out: &mut Out) {
+    for q in quantile_pool() {
+        let x = metrics_util::Quantile::new(q);
+        out.op(&format!("c15 qnew {}", fv_tok(q, true)), &format!("{} {}", fv_tok(x.value(), true), label_class(x.label())));
+        let v = x.value();
+        if !(v >= 0.0 && v <= 1.0) || v.to_bits() != own_clamp(q).to_bits() {
+            out.oracle_fail(
+                "a configured quantile is not clamped into [0,1]",
+                &format!("Quantile::new({:?}).value() = {:?} (label {:?})", q, v, x.label()),
+            );
+        }
+        if (x.label() == "min") != (v == 0.0) || (x.label() == "max") != (v == 1.0) {
+            out.oracle_fail("a configured quantile is not clamped into [0,1]", &format!("Quantile::new({:?}) has value {:?} but label {:?}", q, v, x.label()));
+        }
+    }
+    // values the model cannot name (not a multiple of 1/1024): oracle only
+    for q in [0.999, 0.99, 0.9, 0.95, 1e-300, f64::MIN_POSITIVE, 5e-324, 1.0 - f64::EPSILON / 2.0, 1.0 + f64::EPSILON, -5e-324, 1e300, -1e300, f64::MAX, f64::MIN] {
+        let x = metrics_util::Quantile::new(q);
+        if x.value().to_bits() != own_clamp(q).to_bits() {
+            out.oracle_fail("a configured quantile is not clamped into [0,1]", &format!("Quantile::new({:?}).value() = {:?}", q, x.value()));
+        }
+    }
+    let all = quantile_pool();
+    let parsed = parse_quantiles(&all);
+    if parsed.len() != all.len() || parsed.iter().zip(all.iter()).any(|(p, q)| *p != metrics_util::Quantile::new(*q)) {
+        out.oracle_fail("a configured quantile is not clamped into [0,1]", "parse_quantiles is not Quantile::new element by element");
+    }
+    out.op(&format!("c15 qcfg {}", list(all.iter().map(|q| fv_tok(*q, true)))), &format!("ok {}", parsed.len()));
+    out.op("c15 qcfg .", if PrometheusBuilder::new().set_quantiles(&[]).is_ok() { "ok 0" } else { "err" });
+    // observation: the sign of zero (`f64::max(-0.0, 0.0)` may return either; "-0" would get the label `p-0`)
+    let nz = metrics_util::Quantile::new(-0.0);
+    out.count(&format!("C.observation: Quantile::new(-0.0) = value {:?} label {:?}", nz.value(), nz.label()));
+    out.count("C.corpus Quantile::new on special values");
+}
+
+/// one session: a recorder whose quantiles are configured with arbitrary f64s, a summary under a mock clock; `forced`
+/// puts the given values at the front of the configured list
+fn run_configured_quantiles_session(r: &mut Rng, out: &mut Out, forced: &[f64]) {
+    let pool = quantile_pool();
+    let mut cfg: Vec<f64> = forced.to_vec();
+    let extra = r.range(if forced.is_empty() { 1 } else { 0 }, 6);
+    for _ in 0..extra {
+        // half of the picks from the out-of-range / non-number part of the pool
+        cfg.push(if r.chance(1, 2) { pool[r.below(15)] } else { *r.pick(&pool) });
+    }
+    let n = *r.pick(&[1u32, 2, 3, 5, 8]);
+    let d = *r.pick(&[7u64, 1000, 100_000_000, 300_000_000, 1_000_000_000, 20_000_000_000]);
+    let w = n as u64 * d;
+    let (clock, mock) = Clock::mock();
+    let start = *r.pick(&[0, d, 10 * w + 17]);
+    mock.increment(start);
+    let mut t: u64 = start;
+    let b = PrometheusBuilder::new().set_quantiles(&cfg);
+    let Ok(b) = b else {
+        out.oracle_fail("set_quantiles refused a non-empty list", &format!("{:?}", cfg));
+        return;
+    };
+    let rec = b.set_bucket_count(NonZeroU32::new(n).unwrap()).set_bucket_duration(Duration::from_nanos(d)).unwrap().build_recorder();
+    let handle = rec.handle();
+    let key = Key::from_name("cq");
+    out.op(&format!("c15 rnewcfg {} {}", n, d), &format!("{} {}", n, d));
+    out.op(&format!("c15 qcfg {}", list(cfg.iter().map(|q| fv_tok(*q, true)))), &format!("ok {}", cfg.len()));
+    for q in &cfg {
+        out.count(&format!(
+            "C.configured quantile {}",
+            if q.is_nan() { "NaN" } else if q.is_infinite() { "infinite" } else if *q < 0.0 { "below 0" } else if *q > 1.0 { "above 1" } else if *q == 0.0 || *q == 1.0 { "0 or 1" } else { "inside (0,1)" }
+        ));
+    }
+    let table = value_table();
+    let mut added: Vec<(f64, u64)> = vec![];
+    let steps = [0, 1, d / 2, d, d + 1, 2 * d, 3 * d, w - 1, w, w + 1, 3 * w, (w - d).saturating_sub(1), w - d / 2 - 1];
+    let nev = r.range(2, 14);
+    let near = |x: f64, y: f64| ((x - y) / y).abs() <= SKETCH_ALPHA;
+    for i in 0..=nev {
+        // biased towards small steps so that most renders see a window with several samples
+        let step = if r.chance(3, 5) { *r.pick(&[0, 1, d / 2, d, d + 1]) } else { *r.pick(&steps) };
+        mock.increment(step);
+        t += step;
+        if i < nev && !r.chance(1, 3) {
+            let v = dy(*r.pick(&table));
+            quanta::with_clock(&clock, || rec.register_histogram(&key, &META).record(v));
+            handle.run_upkeep();
+            out.op(&format!("c15 radd {}@{}", fv_tok(v, true), t), "ok");
+            added.push((v, t));
+            continue;
+        }
+        let text = quanta::with_clock(&clock, || handle.render());
+        // line by line (a list that clamps two values to the same quantile repeats a series, which the strict reader refuses)
+        let mut lines: Vec<(String, f64)> = vec![];
+        let mut ty = String::new();
+        let (mut count, mut sum) = (-1.0f64, f64::NAN);
+        for line in text.lines() {
+            match expo::parse_line(line) {
+                Ok(expo::PLine::Type { name, ty: t2 }) if name == "cq" => ty = t2,
+                Ok(expo::PLine::Sample { name, labels, value }) => {
+                    let x: f64 = value.parse().unwrap_or(f64::NAN);
+                    if name == "cq" {
+                        let l = labels.iter().find(|(k, _)| k == "quantile").map(|x| x.1.clone()).unwrap_or_default();
+                        lines.push((l, x));
+                    } else if name == "cq_count" {
+                        count = x;
+                    } else if name == "cq_sum" {
+                        sum = x;
+                    }
+                }
+                _ => {}
+            }
+        }
+        if added.is_empty() {
+            // nothing recorded yet: the family is not rendered at all
+            continue;
+        }
+        let upper: Vec<f64> = added.iter().filter(|(_, ts)| ts + w > t).map(|x| x.0).collect();
+        let lower: Vec<f64> = added.iter().filter(|(_, ts)| ts + w > t + d).map(|x| x.0).collect();
+        out.count(&format!("C.render window={}", if upper.is_empty() { "empty" } else if upper.len() < added.len() { "partial" } else { "all" }));
+        let exact_sum: i64 = added.iter().map(|(v, _)| (v * 1024.0) as i64).sum();
+        if count != added.len() as f64 || sum != dy(exact_sum) || ty != "summary" {
+            out.oracle_fail("rendered summary _count/_sum do not cover all samples", &format!("type {:?} {} {} vs {:?}", ty, count, sum, added));
+        }
+        // ---- independent oracle: one line per configured quantile, in order, labelled with a number in [0,1] (the clamped
+        // configured value), showing a value between the smallest and the largest sample of the window (0 iff it is empty)
+        let describe = || format!("set_quantiles({:?}), {} buckets of {} ns; now={} adds={:?}; rendered quantile lines {:?}", cfg, n, d, t, added, lines);
+        if lines.len() != cfg.len() {
+            out.oracle_fail("rendered summary does not show the configured quantiles", &describe());
+        }
+        for (k, (l, x)) in lines.iter().enumerate() {
+            let lf: f64 = l.parse().unwrap_or(f64::NAN);
+            if !(lf >= 0.0 && lf <= 1.0) || l.to_ascii_lowercase().contains("nan") {
+                out.oracle_fail("a configured quantile is exposed with a label outside [0,1]", &format!("line {} has quantile={:?} :: {}", k, l, describe()));
+            } else if k < cfg.len() && lf != own_clamp(cfg[k]) {
+                out.oracle_fail("rendered summary does not show the configured quantiles", &format!("line {} has quantile={:?}, configured {:?} :: {}", k, l, cfg[k], describe()));
+            }
+            let fmin = |v: &Vec<f64>| v.iter().cloned().fold(f64::INFINITY, f64::min);
+            let fmax = |v: &Vec<f64>| v.iter().cloned().fold(f64::NEG_INFINITY, f64::max);
+            let inside = |x: f64| x >= fmin(&upper) * (1.0 - SKETCH_ALPHA) && x <= fmax(&upper) * (1.0 + SKETCH_ALPHA);
+            let ok = if upper.is_empty() {
+                *x == 0.0
+            } else if lower.is_empty() {
+                // the bucket holding the only candidates may or may not have been dropped yet
+                *x == 0.0 || inside(*x)
+            } else {
+                inside(*x)
+            };
+            if !ok {
+                out.oracle_fail(
+                    "rendered quantiles are not those of the samples inside the rolling window (0 when empty)",
+                    &format!("line {} quantile={:?} shows {} :: {}", k, l, x, describe()),
+                );
+            }
+        }
+        if cfg.iter().any(|q| !(*q >= 0.0 && *q <= 1.0)) && !lower.is_empty() {
+            out.nontrivial();
+        }
+        // ---- the model's answer, line by line
+        let toks: Vec<String> = lines
+            .iter()
+            .map(|(l, x)| {
+                let lf: f64 = l.parse().unwrap_or(f64::NAN);
+                let shown = if *x == 0.0 {
+                    "none".to_string()
+                } else if let (true, Some(nv)) = (lf == 0.0 || lf == 1.0, table.iter().find(|nv| dy(**nv) == *x)) {
+                    format!("x{}", nv)
+                } else {
+                    match table.iter().find(|nv| near(*x, dy(**nv))) {
+                        Some(nv) => nv.to_string(),
+                        None => "undecodable".to_string(),
+                    }
+                };
+                format!("{}:{}", fv_tok(lf, true), shown)
+            })
+            .collect();
+        out.op(&format!("c15 rrender {}", t), &list(toks));
+        let retained_nonempty = lines.iter().any(|(_, x)| *x != 0.0);
+        out.op(&format!("c15 rsnapq {}", t), &format!("{} {} {}", count as u64, fv_tok(sum, true), if retained_nonempty { "some" } else { "zero" }));
+    }
+}
+
+/// corpus: the alignment of a new bucket, for bucket durations whose length in seconds is no binary fraction: a first
+/// sample at t0, the next one exactly k durations later (no bucket in between), then a snapshot in the last half
+/// duration of that sample's life in the window and one just after it
+fn align_corpus() -> Vec<RollCase> {
+    use REv::*;
+    let table = value_table();
+    let mut v = vec![];
+    for d in [100_000_000u64, 10_000_000, 1_000_000, 300_000_000, 1000, 10, 7, 3, 700_000_000, 1_100_000_000] {
+        for k in 1u64..=24 {
+            let n = (k + 1) as u32;
+            let w = n as u64 * d;
+            v.push(RollCase {
+                n,
+                d,
+                start: if k % 2 == 0 { 0 } else { 5 * w + 3 },
+                decodable: true,
+                scale_exp: 0,
+                events: vec![
+                    (0, Add(dy(table[3]))),
+                    (k * d, Add(dy(table[20]))),
+                    (0, Snap),
+                    (w - d + d / 2, Snap),
+                    (d - d / 2 - 1, Snap),
+                    (1, Snap),
+                ],
+            });
+        }
+    }
+    v
+}
+
 // ---------------------------------------------------------------------------------------------
 
 pub fn run(cfg: &Cfg, out: &mut Out) {
@@ -1996,6 +2287,19 @@ pub fn run(cfg: &Cfg, out: &mut Out) {
     for (i, c) in expo_corpus().iter().enumerate() {
         out.case(&format!("corpus exposure {}", i));
         run_expo_case(out, c);
+    }
+    for (i, c) in align_corpus().iter().enumerate() {
+        out.case(&format!("corpus bucket alignment {}", i));
+        run_roll_case(out, c);
+    }
+    out.case("corpus Quantile::new");
+    run_quantile_new_corpus(out);
+    for (i, forced) in [vec![f64::NAN], vec![0.5, f64::NAN, 1.0], vec![-1.0, 2.0, f64::INFINITY, f64::NEG_INFINITY, -f64::NAN], vec![0.0, 0.0, 1.0]].iter().enumerate() {
+        for j in 0..3u64 {
+            out.case(&format!("corpus configured quantiles {} {}", i, j));
+            let mut r = root.fork(2_000_000 + 10 * i as u64 + j);
+            run_configured_quantiles_session(&mut r, out, forced);
+        }
     }
     out.case("corpus builder guards");
     run_builder_guards(out);
@@ -2047,6 +2351,10 @@ pub fn run(cfg: &Cfg, out: &mut Out) {
                 out.case(&format!("seed={} i={} dist", cfg.seed, i));
                 let c = gen_dist_case(&mut r);
                 run_dist_case(out, &c);
+            }
+            6 if (i / 8) % 2 == 1 => {
+                out.case(&format!("seed={} i={} configured quantiles", cfg.seed, i));
+                run_configured_quantiles_session(&mut r, out, &[]);
             }
             6 => {
                 out.case(&format!("seed={} i={} window session", cfg.seed, i));
